@@ -4,6 +4,7 @@ import (
 	"bytes"
 	"fmt"
 	"math/big"
+	"runtime"
 	"sync"
 	"sync/atomic"
 
@@ -64,6 +65,29 @@ func runHammer(r *mon.Run, id string, rounds int, build func(rng *gen.Rng, w *mo
 		var calls atomic.Int64
 		var wg sync.WaitGroup
 		gate := make(chan struct{})
+		// every other round under garbage-collector pressure: a goroutine allocates and forces
+		// collections while the others work (finalizers, weak references, pooled objects that a
+		// collection empties, objects whose last reference the library dropped too early)
+		stopGC := make(chan struct{})
+		gcDone := make(chan struct{})
+		if round%2 == 1 {
+			w.Class(lc + ":hammer:gc-pressure")
+			go func() {
+				defer close(gcDone)
+				var sink [][]byte
+				for {
+					select {
+					case <-stopGC:
+						return
+					default:
+					}
+					sink = append(sink[:0], make([]byte, 1<<16), make([]byte, 1<<12))
+					runtime.GC()
+				}
+			}()
+		} else {
+			close(gcDone)
+		}
 		for g := 0; g < G; g++ {
 			wg.Add(1)
 			go func(g int) {
@@ -90,6 +114,8 @@ func runHammer(r *mon.Run, id string, rounds int, build func(rng *gen.Rng, w *mo
 		}
 		close(gate)
 		wg.Wait()
+		close(stopGC)
+		<-gcDone
 		w.ClassN(lc+":hammer:concurrent-calls", calls.Load())
 		w.ClassN(lc+":hammer:goroutines", int64(G))
 		w.ClassN(lc+":hammer:hot-operations", int64(len(hot)))
